@@ -1,155 +1,257 @@
 /-
-C04 — property theorems (pack/unpack core).  Helper lemmas live here only when they are
-one-liners; everything is core Lean (no Mathlib).
+C04 — all tensor representations agree on values and bytes: the property theorems.
+
+Models: `Model/Pack.lean` (pack/unpack, little-endian items, nbytes) and `Model/TensorRepr.lean`
+(element-type tables, array / torch / packed / proto-backed / external / lazy representations,
+destination files, serialize / deserialize).  Helper developments: `Lemmas/Pack.lean`,
+`Lemmas/TensorRepr.lean`, `Lemmas/TensorReprAgree.lean`.  Everything is core Lean (no Mathlib).
 -/
-import IrVerif.Model.Pack
+import IrVerif.Lemmas.Pack
+import IrVerif.Lemmas.TensorReprAgree
+
 namespace IrVerif.Pack
-
-theorem resize_self (xs : List Nat) : resize xs xs.length = xs := by
-  simp [resize]
-
-theorem pack4_length : ∀ xs : List Nat, (pack4 xs).length = nbytes xs.length 4
-  | [] => by simp [pack4, nbytes]
-  | [a] => by simp [pack4, nbytes]
-  | a :: b :: rest => by
-      have := pack4_length rest
-      simp [pack4, nbytes] at *
-      omega
-
-theorem pack4_byte : ∀ xs : List Nat, ∀ b ∈ pack4 xs, b < 256
-  | [] => by simp [pack4]
-  | [a] => by simp [pack4]; omega
-  | a :: b :: rest => by
-      intro x hx
-      simp only [pack4, List.mem_cons] at hx
-      rcases hx with h | h
-      · omega
-      · exact pack4_byte rest x h
-
-/-- even length: raw unpack of pack is the masked list -/
-theorem unpack4raw_pack4_even : ∀ xs : List Nat, xs.length % 2 = 0 →
-    unpack4raw (pack4 xs) = xs.map (· % 16)
-  | [], _ => by simp [pack4, unpack4raw]
-  | [a], h => by simp at h
-  | a :: b :: rest, h => by
-      have ih := unpack4raw_pack4_even rest (by simp at h; omega)
-      simp only [pack4, unpack4raw, ih, List.map_cons]
-      congr 1
-      · omega
-      · congr 1; omega
-
-theorem unpack4raw_pack4_odd : ∀ xs : List Nat, xs.length % 2 = 1 →
-    unpack4raw (pack4 xs) = xs.map (· % 16) ++ [0]
-  | [], h => by simp at h
-  | [a], _ => by simp [pack4, unpack4raw]; omega
-  | a :: b :: rest, h => by
-      have ih := unpack4raw_pack4_odd rest (by simp at h; omega)
-      simp only [pack4, unpack4raw, ih, List.map_cons, List.cons_append]
-      congr 1
-      · omega
-      · congr 1; omega
 
 /-- **C04_unpack_pack4**: unpacking what was packed returns every element masked to 4 bits,
     for every length (odd lengths exercise the padding rule). -/
-theorem C04_unpack_pack4 (xs : List Nat) : unpack4 (pack4 xs) xs.length = xs.map (· % 16) := by
-  rcases Nat.mod_two_eq_zero_or_one xs.length with h | h
-  · have := unpack4raw_pack4_even xs h
-    simp only [unpack4, this, List.length_map]
-    simp only [show ¬ (xs.length = xs.length + 1) by omega, if_false]
-    simpa using resize_self (xs.map (· % 16))
-  · have := unpack4raw_pack4_odd xs h
-    simp only [unpack4, this, List.length_append, List.length_map, List.length_singleton, if_true,
-      List.dropLast_concat]
-    simpa using resize_self (xs.map (· % 16))
+theorem C04_unpack_pack4 (xs : List Nat) : unpack4 (pack4 xs) xs.length = xs.map (· % 16) :=
+  unpack4_pack4_mod xs
+
+/-- **C04_unpack_pack2**: the same for 2-bit elements (lengths that are not multiples of 4
+    exercise the padding rule). -/
+theorem C04_unpack_pack2 (xs : List Nat) : unpack2 (pack2 xs) xs.length = xs.map (· % 4) :=
+  unpack2_pack2_mod xs
 
 theorem C04_pack4_len (xs : List Nat) : (pack4 xs).length = nbytes xs.length 4 := pack4_length xs
 
-theorem pack2_length : ∀ xs : List Nat, (pack2 xs).length = nbytes xs.length 2
-  | [] => by simp [pack2, nbytes]
-  | [a] => by simp [pack2, nbytes]
-  | [a, b] => by simp [pack2, nbytes]
-  | [a, b, c] => by simp [pack2, nbytes]
-  | a :: b :: c :: d :: rest => by
-      have := pack2_length rest
-      simp [pack2, nbytes] at *
-      omega
-
 theorem C04_pack2_len (xs : List Nat) : (pack2 xs).length = nbytes xs.length 2 := pack2_length xs
 
-/-- raw unpack of a 2-bit pack is the masked list followed by the zero padding -/
-theorem unpack2raw_pack2 : ∀ xs : List Nat,
-    unpack2raw (pack2 xs) = xs.map (· % 4) ++ List.replicate ((4 - xs.length % 4) % 4) 0
-  | [] => by simp [pack2, unpack2raw]
-  | [a] => by simp [pack2, unpack2raw]; omega
-  | [a, b] => by simp [pack2, unpack2raw]; omega
-  | [a, b, c] => by simp [pack2, unpack2raw]; omega
-  | a :: b :: c :: d :: rest => by
-      have ih := unpack2raw_pack2 rest
-      have hl : (4 - (a :: b :: c :: d :: rest).length % 4) % 4 = (4 - rest.length % 4) % 4 := by
-        simp; omega
-      simp only [pack2, unpack2raw, ih, List.map_cons, List.cons_append, hl]
-      congr 1
-      · omega
-      · congr 1
-        · omega
-        · congr 1
-          · omega
-          · congr 1; omega
+/-- **C04_pack_unpack4**: packing what was unpacked from a buffer of exactly `nbytes n 4` bytes
+    returns the buffer with the padding bits cleared (so a buffer with zero padding round-trips
+    exactly). -/
+theorem C04_pack_unpack4 (bs : List Nat) (n : Nat) (hb : ∀ b ∈ bs, b < 256)
+    (hn : bs.length = nbytes n 4) : pack4 (unpack4 bs n) = clearPad 4 n bs :=
+  pack4_unpack4 bs n hb hn
 
-/-- **C04_unpack_pack2** -/
-theorem C04_unpack_pack2 (xs : List Nat) : unpack2 (pack2 xs) xs.length = xs.map (· % 4) := by
-  have h := unpack2raw_pack2 xs
-  simp only [unpack2, h]
-  have hlen : (xs.map (· % 4)).length = xs.length := by simp
-  split
-  · rw [List.take_append_of_le_length (by simp)]
-    simp only [List.take_of_length_le (Nat.le_of_eq hlen)]
-    simpa using resize_self (xs.map (· % 4))
-  · rename_i hgt
-    simp at hgt
-    have : (4 - xs.length % 4) % 4 = 0 := by omega
-    simp only [this, List.replicate_zero, List.append_nil]
-    simpa using resize_self (xs.map (· % 4))
-
-theorem leBytes_length (w x : Nat) : (leBytes w x).length = w := by
-  induction w generalizing x with
-  | zero => rfl
-  | succ w ih => simp [leBytes, ih]
+/-- **C04_pack_unpack2** -/
+theorem C04_pack_unpack2 (bs : List Nat) (n : Nat) (hb : ∀ b ∈ bs, b < 256)
+    (hn : bs.length = nbytes n 2) : pack2 (unpack2 bs n) = clearPad 2 n bs :=
+  pack2_unpack2 bs n hb hn
 
 /-- **C04_le_roundtrip**: little-endian item bytes decode back to the bit pattern. -/
-theorem C04_le_roundtrip (w x : Nat) (h : x < 256 ^ w) : ofLeBytes (leBytes w x) = x := by
-  induction w generalizing x with
-  | zero => simp [leBytes, ofLeBytes] at *; omega
-  | succ w ih =>
-      simp only [leBytes, ofLeBytes]
-      have : x / 256 < 256 ^ w := by
-        rw [Nat.div_lt_iff_lt_mul (by decide)]; rw [Nat.pow_succ] at h; exact h
-      rw [ih _ this]; omega
+theorem C04_le_roundtrip (w x : Nat) (h : x < 256 ^ w) : ofLeBytes (leBytes w x) = x :=
+  ofLeBytes_leBytes w x h
 
-/-- **C04_nbytes**: the model's `tobytes` has exactly `nbytes` bytes for the packed widths and
-    for every whole-byte width. -/
+/-- **C04_nbytes**: the canonical byte form has exactly `nbytes = ceil(size * bitwidth / 8)` bytes
+    for the packed widths and for every whole-byte width. -/
 theorem C04_nbytes (bw : Nat) (xs : List Nat) (h : bw = 2 ∨ bw = 4 ∨ bw % 8 = 0) :
-    (tobytes bw xs).length = nbytes xs.length bw := by
-  unfold tobytes
-  rcases h with h | h | h
-  · subst h; simp [pack2_length]
-  · subst h; simp [pack4_length]
-  · have h4 : bw ≠ 4 := by omega
-    have h2 : bw ≠ 2 := by omega
-    simp only [h4, h2, if_false]
-    have : ∀ ys : List Nat, (ys.flatMap (leBytes (bw / 8))).length = ys.length * (bw / 8) := by
-      intro ys; induction ys with
-      | nil => simp
-      | cons y ys ih => simp [List.flatMap_cons, leBytes_length, ih, Nat.add_mul]; omega
-    rw [this, nbytes]
-    obtain ⟨k, hk⟩ : ∃ k, bw = 8 * k := ⟨bw / 8, by omega⟩
-    subst hk
-    have h8 : 8 * k / 8 = k := by omega
-    rw [h8, show xs.length * (8 * k) = 8 * (xs.length * k) from Nat.mul_left_comm _ _ _]
-    omega
+    (tobytes bw xs).length = nbytes xs.length bw :=
+  IrVerif.TensorRepr.packLE_length bw xs h
 
--- non-vacuity: odd lengths and out-of-range elements are covered by the statements above
+-- non-vacuity: odd lengths, out-of-range elements, non-zero padding bits
 example : unpack4 (pack4 [1, 2, 31]) 3 = [1, 2, 15] := by decide
 example : unpack2 (pack2 [0, 1, 2, 3, 5]) 5 = [0, 1, 2, 3, 1] := by decide
+example : pack4 (unpack4 [0x21, 0xF3] 3) = [0x21, 0x03] := by decide
+example : pack2 (unpack2 [0xE4, 0xFD] 5) = [0xE4, 0x01] := by decide
+-- the pre-fix behaviour D20 (2-bit data unpacked with the 4-bit routine) is not the 2-bit decoding
+example : unpack4 [0xE4, 0x01] 5 ≠ unpack2 [0xE4, 0x01] 5 := by decide
 
 end IrVerif.Pack
+
+namespace IrVerif.TensorRepr
+open IrVerif.Pack
+
+/-- what `C04_tables` states about the element-type tables of `_enums` -/
+structure Tables : Prop where
+  /-- 27 members with the codes 0..26 -/
+  count : DType.all.length = 27
+  code_inv : ∀ d : DType, DType.ofCode d.code = some d
+  code_inv' : ∀ n, n < 27 → (DType.ofCode n).map DType.code = some n
+  code_range : ∀ n, 27 ≤ n → DType.ofCode n = none
+  /-- bit widths exist for every member except UNDEFINED and STRING -/
+  bitwidth_total : ∀ d : DType, d.bitwidth = none ↔ (d = .undefined ∨ d = .string)
+  /-- short names: total, and `from_short_name` / `short_name` are mutually inverse -/
+  short_total : ∀ d : DType, (d.shortName.bind DType.ofShortName) = some d
+  short_inv : ∀ (s : String) (d : DType), DType.ofShortName s = some d → d.shortName = some s
+  /-- numpy types: total except UNDEFINED, `from_numpy` / `numpy()` mutually inverse -/
+  np_total : ∀ d : DType, d ≠ .undefined → (d.npName.bind DType.ofNpName) = some d
+  np_undefined : DType.undefined.npName = none
+  np_inv : ∀ (s : String) (d : DType), DType.ofNpName s = some d → d.npName = some s
+  /-- `itemsize * 8 = bitwidth` against the numpy item size: whole-byte types occupy bitwidth/8
+      bytes, 2- and 4-bit types one byte per element -/
+  itemsize : ∀ (d : DType) (bw : Nat), d.bitwidth = some bw →
+    (8 ≤ bw → 8 * npItemBytes d = bw) ∧ (bw < 8 → npItemBytes d = 1)
+  /-- the literal type sets used by the byte builders coincide with the bit-width table -/
+  sets : ∀ (d : DType) (bw : Nat), d.bitwidth = some bw →
+    (d.bytePack4 = true ↔ bw = 4) ∧ (d.bytePack2 = true ↔ bw = 2) ∧
+    (d.extSubByte = true ↔ (bw = 4 ∨ bw = 2)) ∧
+    (d.int32Legal = true → bw ≤ 32 ∧ (d.int32Bytes16 = true ↔ bw = 16) ∧
+      (d.int32Bytes8 = true ↔ (bw = 8 ∨ bw = 4 ∨ bw = 2)) ∧ (d = .int32 ↔ bw = 32))
+  /-- integer and floating-point classifications are disjoint and have a bit width -/
+  classes : ∀ d : DType, ¬ (d.isInteger = true ∧ d.isFloatingPoint = true) ∧
+    ((d.isInteger = true ∨ d.isFloatingPoint = true) → d.bitwidth.isSome = true)
+
+/-- **C04_tables**: the element-type tables are total where claimed, mutually inverse, and
+    consistent with each other (finite: by evaluation of the literals, which the check compares
+    with the real `_enums` tables on every run). -/
+theorem C04_tables : Tables where
+  count := by decide
+  code_inv := ofCode_code
+  code_inv' := by decide
+  code_range := by
+    intro n hn
+    simp only [DType.ofCode]
+    exact List.getElem?_eq_none (by simpa [DType.all] using hn)
+  bitwidth_total := by intro d; cases d <;> decide
+  short_total := by intro d; cases d <;> decide
+  short_inv := by
+    intro s d h
+    simp only [DType.ofShortName, Option.map_eq_some_iff] at h
+    obtain ⟨p, hp, rfl⟩ := h
+    have hm := List.mem_of_find?_eq_some hp
+    have hs := List.find?_some hp
+    simp only [decide_eq_true_eq] at hs
+    rw [← hs]
+    have hall : ∀ q ∈ DType.shortNameTable.reverse, q.1.shortName = some q.2 := by decide
+    exact hall p hm
+  np_total := by intro d; cases d <;> decide
+  np_undefined := by decide
+  np_inv := by
+    intro s d h
+    simp only [DType.ofNpName] at h
+    have hall : ∀ q ∈ DType.npTable, DType.npTable.lookup q.1 = some q.2 → q.2.npName = some q.1 := by
+      decide
+    have hmem : (s, d) ∈ DType.npTable := by
+      clear hall
+      revert h
+      generalize DType.npTable = t
+      intro h
+      induction t with
+      | nil => simp [List.lookup] at h
+      | cons q t ih =>
+        simp only [List.lookup] at h
+        split at h
+        · rename_i heq
+          simp only [beq_iff_eq] at heq
+          simp only [Option.some.injEq] at h
+          subst h; subst heq
+          simp
+        · exact List.mem_cons_of_mem _ (ih h)
+    exact hall (s, d) hmem h
+  itemsize := by
+    intro d bw h
+    have F := facts d bw h
+    constructor
+    · intro h8
+      rcases F.item with h2 | h4 | hi
+      · omega
+      · omega
+      · exact hi.symm
+    · intro h8
+      apply F.item1
+      rcases F.range with h | h | h | h | h | h | h <;> omega
+  sets := by
+    intro d bw h
+    have F := facts d bw h
+    exact ⟨F.pack4, F.pack2, F.sub, F.i32⟩
+  classes := by intro d; cases d <;> decide
+
+/-- **C04_field_agree**: every legal representation of a logical tensor (element type `d` of `bw`
+    bits, shape `dims`, element bit patterns `xs`) — array-backed with any storage form, torch
+    adapter, packed, proto-backed through `raw_data`, `int32_data` (any congruent int32 values, at
+    32/16/8 bits and packed at 4/2 bits), `int64_data`, `uint64_data` (also for UINT32),
+    `float_data` / `double_data` (also as complex pairs), external at any offset inside any file,
+    and a lazy wrapper around any of these — reports `d` and `dims`, has
+    `nbytes = ceil(size * bw / 8)`, decodes (`numpy()`, bits masked to the width) to exactly `xs`,
+    and returns exactly the canonical little-endian packed bytes from `tobytes()` and `tofile()`. -/
+theorem C04_field_agree {d : DType} {dims : List Nat} {bw : Nat} {xs : List Nat}
+    (wf : WF d dims bw xs) {r : Rep} (h : Legal d dims bw xs r) : Agrees d dims bw xs r :=
+  legal_agrees wf h
+
+/-- **C04_all_agree**: any two legal representations of the same logical tensor are
+    observationally equal. -/
+theorem C04_all_agree {d : DType} {dims : List Nat} {bw : Nat} {xs : List Nat}
+    (wf : WF d dims bw xs) {r₁ r₂ : Rep} (h₁ : Legal d dims bw xs r₁) (h₂ : Legal d dims bw xs r₂) :
+    r₁.dtype = r₂.dtype ∧ r₁.shape = r₂.shape ∧ r₁.nbytes = r₂.nbytes ∧
+    r₁.tobytes = r₂.tobytes ∧ r₁.tofile = r₂.tofile ∧
+    (∃ u₁ u₂, r₁.numpy = .ok u₁ ∧ r₂.numpy = .ok u₂ ∧ obsBits bw u₁ = obsBits bw u₂) := by
+  have A := legal_agrees wf h₁
+  have B := legal_agrees wf h₂
+  obtain ⟨u₁, hu₁, e₁⟩ := A.numpy
+  obtain ⟨u₂, hu₂, e₂⟩ := B.numpy
+  exact ⟨A.dtype.trans B.dtype.symm, A.shape.trans B.shape.symm, A.nbytes.trans B.nbytes.symm,
+    A.tobytes.trans B.tobytes.symm, A.tofile.trans B.tofile.symm,
+    u₁, u₂, hu₁, hu₂, e₁.trans e₂.symm⟩
+
+/-- **C04_bytes_len**: the bytes every legal representation returns have length `nbytes`. -/
+theorem C04_bytes_len {d : DType} {dims : List Nat} {bw : Nat} {xs : List Nat}
+    (wf : WF d dims bw xs) : (packLE bw xs).length = nbytes (prod dims) bw := by
+  have F := facts d bw wf.hbw
+  rw [← wf.len]
+  apply packLE_length
+  rcases F.range with h | h | h | h | h | h | h <;> omega
+
+/-- **C04_tofile_at**: a non-empty write at position `p` (the end in append mode) keeps every
+    byte before `p` (zero-filling a gap past the old end), puts exactly the data at `[p, p+len)`,
+    keeps every byte from `p+len` on, and leaves the position at `p+len`; an empty write changes
+    nothing. -/
+theorem C04_tofile_at (f : Dest) (data : List Nat) :
+    (data = [] → f.write data = f) ∧
+    (data ≠ [] →
+      (f.write data).pos = (if f.append then f.img.length else f.pos) + data.length ∧
+      (f.write data).img.take (if f.append then f.img.length else f.pos)
+        = f.img.take (if f.append then f.img.length else f.pos)
+          ++ List.replicate ((if f.append then f.img.length else f.pos) - f.img.length) 0 ∧
+      ((f.write data).img.drop (if f.append then f.img.length else f.pos)).take data.length = data ∧
+      (f.write data).img.drop ((if f.append then f.img.length else f.pos) + data.length)
+        = f.img.drop ((if f.append then f.img.length else f.pos) + data.length)) :=
+  ⟨fun h => by subst h; exact write_nil f, write_spec f data⟩
+
+/-- **C04_tofile_repr**: `tofile` of any legal representation into any destination (regular
+    file or buffer, any position, append mode) performs exactly the write of the canonical bytes
+    and does not raise. -/
+theorem C04_tofile_repr {d : DType} {dims : List Nat} {bw : Nat} {xs : List Nat}
+    (wf : WF d dims bw xs) {r : Rep} (h : Legal d dims bw xs r) (f : Dest) :
+    r.tofileAt f = .ok (f.write (packLE bw xs), false) := by
+  simp [Rep.tofileAt, (legal_agrees wf h).tofile]
+
+/-- **C04_serialize_roundtrip**: serializing any legal representation and deserializing the
+    proto (with the same data file for an external tensor) yields a legal representation of the
+    same logical tensor (so, by `C04_field_agree`, the same values and bytes). -/
+theorem C04_serialize_roundtrip {d : DType} {dims : List Nat} {bw : Nat} {xs : List Nat}
+    (wf : WF d dims bw xs) {r : Rep} (h : Legal d dims bw xs r) :
+    ∃ p r', serialize r = .ok p ∧ deserialize p (fileOf r) = .ok r' ∧ Legal d dims bw xs r' :=
+  serialize_roundtrip wf h
+
+/-! non-vacuity: the hypotheses are satisfiable by concrete tensors of every kind -/
+
+example : WF .int4 [3] 4 [15, 7, 8] := ⟨by decide, by decide, by decide⟩
+example : WF .uint2 [5] 2 [0, 1, 2, 3, 1] := ⟨by decide, by decide, by decide⟩
+example : WF .float [] 32 [0x7FC00000] := ⟨by decide, by decide, by decide⟩
+example : WF .double [0] 64 [] := ⟨by decide, by decide, by decide⟩
+-- odd-length 4-bit data in int32_data, one byte stored as a negative int32
+example : Legal .int4 [3] 4 [15, 7, 8] (.proto { dataType := 22, dims := [3], int32Data := [127, -248] }) :=
+  Legal.protoInt32 [127, -248] (by decide) (by decide)
+-- a sign-extended int8 storage byte for a 4-bit element
+example : Legal .int4 [3] 4 [15, 7, 8] (.array .int4 [3] [0xFF, 7, 0xF8]) :=
+  Legal.array [0xFF, 7, 0xF8] (by decide) (by decide)
+-- 2-bit data at the end of a file, behind one unrelated byte, offset given, length omitted
+example : Legal .uint2 [5] 2 [0, 1, 2, 3, 1]
+    (.external { dtype := .uint2, dims := [5], offset := some 1, length := none } (some ([7] ++ packLE 2 [0, 1, 2, 3, 1] ++ []))) :=
+  Legal.external _ [7] [] rfl rfl rfl (by intro l h; cases h)
+example : Legal .uint2 [5] 2 [0, 1, 2, 3, 1] (.lazy .uint2 [5] (.packed { dtype := .uint2, dims := [5], raw := packLE 2 [0, 1, 2, 3, 1] })) :=
+  Legal.lazy _ (Legal.packed (Or.inl rfl))
+example : Legal .complex64 [1] 64 [0x3F80000040000000]
+    (.proto { dataType := 14, dims := [1], floatData := splitParts 32 [0x3F80000040000000] }) :=
+  Legal.protoComplex64 rfl
+example : Legal .uint32 [2] 32 [1, 0xFFFFFFFF] (.proto { dataType := 12, dims := [2], uint64Data := [0x100000001, 0xFFFFFFFF] }) :=
+  Legal.protoUint64as32 _ rfl (by decide)
+example : Legal .uint2 [5] 2 [0, 1, 2, 3, 1] (.torch .uint2 [5] [0, 1, 2, 3, 1]) :=
+  Legal.torch _ (by decide) (by decide) (by decide)
+-- and the conclusions are not trivially true: the model answers concrete bytes
+example : (Rep.proto { dataType := 22, dims := [3], int32Data := [127, -248] }).numpy = .ok [15, 7, 8] := rfl
+example : (Rep.external { dtype := .uint2, dims := [5], offset := some 1, length := none } (some [7, 0xE4, 0x01])).numpy
+    = .ok [0, 1, 2, 3, 1] := rfl
+example : (Dest.write { img := [1, 2, 3], pos := 5 } [9, 8]).img = [1, 2, 3, 0, 0, 9, 8] := by decide
+example : (Dest.write { img := [1, 2, 3], pos := 1, append := true } [9]).img = [1, 2, 3, 9] := by decide
+
+end IrVerif.TensorRepr
